@@ -207,6 +207,51 @@ def vf_eq(eng, st, fr, ins, a):
     return c
 
 
+def _angle_rel(eng, st, a, window):
+    x, y = a
+    if not isinstance(x, SV) and not isinstance(y, SV):
+        d = x - y
+        if window:
+            return int(abs(d) <= 1e-9)
+        return int(abs(math.remainder(d, 2 * math.pi)) <= 1e-9)
+    from . import angles
+    ex, ey = eng.fterm(x, ir.DOUBLE), eng.fterm(y, ir.DOUBLE)
+    sn, cs = angles.sincos_term(eng, st, ex - ey)
+    c = z3.And(sn == 0, cs == 1)
+    if window:
+        pi = angles.PI(eng)
+        c = z3.And(c, ex - ey < 2 * pi, ex - ey > -2 * pi)
+    return SV(c)
+
+
+@model("vf_angle_eq")
+def vf_angle_eq(eng, st, fr, ins, a):
+    return _angle_rel(eng, st, a, True)
+
+
+@model("vf_angle_congruent")
+def vf_angle_congruent(eng, st, fr, ins, a):
+    return _angle_rel(eng, st, a, False)
+
+
+@model("vf_symbolic")
+def vf_symbolic(eng, st, fr, ins, a):
+    return 0 if eng.assignment is not None else 1
+
+
+@model("vf_near")
+def vf_near(eng, st, fr, ins, a):
+    x, y, tol = a
+    if x is UNDEF or y is UNDEF:
+        raise Inconclusive("vf_near(undef)")
+    if not isinstance(x, SV) and not isinstance(y, SV):
+        if x != x or y != y:
+            return 0
+        m = max(1.0, abs(x), abs(y))
+        return int(abs(x - y) <= tol * m)
+    return eng.fcmp("oeq", x, y, ir.DOUBLE)
+
+
 @model("vf_enum")
 def vf_enum(eng, st, fr, ins, a):
     v = a[0]
